@@ -325,7 +325,13 @@ func genC10(seed uint64) *Scenario {
 	if faulty {
 		sc.Class = "faulty"
 	}
-	genInbound(r, sc, faulty, genSimpleFrame)
+	fg := genSimpleFrame
+	if r.Chance(0.3) {
+		// frames of the all-kinds corpus (parseable on the current tree): the "delivered
+		// message stays unchanged while buffers are recycled" clause needs real decoders
+		fg = genCorpusFrame(0)
+	}
+	genInbound(r, sc, faulty, fg)
 	// some full-duplex runs
 	if r.Chance(0.15) {
 		genProducers(r, sc, 3, 20)
